@@ -3,7 +3,7 @@ document's own paths, segmentations, adjacent replies."""
 import xml.etree.ElementTree as ET
 
 TAGS = ['a', 'b', 'c', 'd', 'e', 'item', 'name', 're-name', 'x-y']
-TEXTS = ['1', 'text', 'x &amp; y', 'é€', 'a b', '&lt;tag&gt;', '0.5']
+TEXTS = ['1', 'text', 'x &amp; y', 'é€', 'a b', '&lt;tag&gt;', '0.5', 'a ]]&gt; b', ']]&gt;]]&gt;', 'x &gt; y', '&#93;]&gt;', 'q&quot;&apos;']
 
 
 def gen_elem(rng, depth, max_depth):
